@@ -11,6 +11,7 @@ escapes.  Visibility probes after each element observe the variable scope.
 """
 import itertools
 import random
+import re
 
 from checks import c01
 from vlib import monitors, tmodel
@@ -148,7 +149,9 @@ def layer_error_variable(ctx, n):
     from chameleon import PageTemplate
     rng = ctx.rng
     for case in range(n):
-        lead = rng.choice(['', 'x\n', 'é\n\n   ', '<b>t</b>\n\t'])
+        lead = rng.choice(['', 'x\n', 'é\n\n   ', '<b>t</b>\n\t',
+                           # a code block whose own exception handler binds the name the fallback reads
+                           '<?python\ntry:\n    zq = int("7")\nexcept ValueError as error:\n    zq = 0\n?>\n'])
         site = rng.choice(['${f(1)}', '<i tal:content="f(1)">c</i>', '<i tal:attributes="a f(1)">c</i>', '<i tal:condition="f(1)">c</i>',
                            '<i tal:repeat="r f(1)">c</i>', 'a\n  b ${f(1)}',
                            # the failure happens inside a macro rendered in place, after the enclosing function has
@@ -181,12 +184,13 @@ def layer_error_variable(ctx, n):
             out = PageTemplate(src, on_error_handler=calls.append)(f=f, g=lambda i: 'g')
         except Exception as e:
             out = 'RAISED %s: %s' % (type(e).__name__, str(e).split('\n')[0][:80])
-        want = lead + '<div class="k">T=%s;V=%s;L=%d;O=%d</div>!' % (exc, exc, line, col)
+        lead_out = re.sub(r'<\?python.*?\?>', '', lead, flags=re.S)       # a code block leaves nothing in the output
+        want = lead_out + '<div class="k">T=%s;V=%s;L=%d;O=%d</div>!' % (exc, exc, line, col)
         in_macro = 'define-macro' in site
         if in_macro:
             # the position of a failure inside an in-place macro is either not known (None) or the failing
             # expression's - never that of some other expression
-            if out == lead + '<div class="k">T=%s;V=%s;L=;O=</div>!' % (exc, exc):
+            if out == lead_out + '<div class="k">T=%s;V=%s;L=;O=</div>!' % (exc, exc):
                 want = out
             calls = [c for c in calls if type(c).__name__ != 'ZeroDivisionError' or exc == 'ZeroDivisionError'][-1:]
         if case % 6 == 0 and not in_macro:
